@@ -319,6 +319,9 @@ func sweepC13(tier string, emit func(*CaseC13)) {
 				}
 			}
 		}
+		if g == 40 {
+			allProcs(c)
+		}
 		emit(c)
 	}
 	// documented examples and their neighbourhood
